@@ -631,7 +631,7 @@ func init() {
 		Rule: "case k: a tree whose commands are all Commander nodes (depth <=3), a fully valid intent vector (required options and positionals supplied), then the (k mod 14)-th fault {none, unknown option, bad value, missing argument, argument to a flag, dropped required option, dropped required positional, unknown command word, missing command, -h/--help, help inside a cluster, not-a-choice, Execute returns an error, completion mode} injected at a random item position; with a CommandHandler in every second block. " +
 			"Oracle (exactly-once accounting over the call log): typed error => no Execute/handler entry; valid => exactly one entry, for the innermost active command, with the returned remaining arguments, error identity preserved; completion => no entry. distinct = (fault, handler, depth, position).",
 		Assumptions: []string{"the fault position is one random item position per case (all positions are covered across cases, not within one)"},
-		Technique:   "runtime exactly-once accounting monitor over a recorded call log (Execute / CommandHandler) versus the ParseArgs result, with single-fault injection into valid vectors",
+		Technique:   "runtime exactly-once accounting monitor over a recorded call log (Execute / CommandHandler) versus the ParseArgs result, with single-fault injection into valid vectors; metamorphic history monitor ([use, change of the public model, use] on one parser vs. a fresh parser of the changed declaration)",
 		LevelText:   "Fault enumeration by input: every fault kind is injected at every relative position across the run and the call log is audited; this is the right level for a universal negative (\"never runs after an error\").",
 		LevelNote:   "Trusted: call log written by the harness's own Commander nodes; the validity of the base vector (checked by the 'none' fault cell).",
 		DesignRef:   "§4 C09",
